@@ -9,6 +9,27 @@ From MVG Require Import Election_Gen.
 Lemma dstate_eqb_drift d : dstate_eqb d DDrift = is_drift d. Proof. destruct d; reflexivity. Qed.
 Lemma dstate_eqb_warn d : dstate_eqb d DWarn = is_warn d. Proof. destruct d; reflexivity. Qed.
 
+(** case analysis that follows the meaning of the tests, not their nesting or spelling: every atomic boolean test is
+    split, integer tests become (in)equalities, contradictory branches are closed by lia *)
+Ltac atomic c :=
+  lazymatch c with
+  | true => fail | false => fail
+  | (if _ then _ else _) => fail
+  | _ => idtac
+  end.
+Ltac split_tests :=
+  unfold andb, orb, negb; cbv beta iota zeta;
+  repeat (match goal with |- context [if ?c then _ else _] => atomic c; destruct c eqn:? end; cbv beta iota zeta).
+Ltac zdec :=
+  repeat match goal with
+         | H : (_ <=? _) = true |- _ => apply Z.leb_le in H
+         | H : (_ <=? _) = false |- _ => apply Z.leb_gt in H
+         | H : (_ <? _) = true |- _ => apply Z.ltb_lt in H
+         | H : (_ <? _) = false |- _ => apply Z.ltb_ge in H
+         | H : (_ =? _) = true |- _ => apply Z.eqb_eq in H
+         | H : (_ =? _) = false |- _ => apply Z.eqb_neq in H
+         end.
+
 Theorem gen_simple_majority l : fst (SimpleMajorityElection_call l) = simple_majority l.
 Proof.
   unfold SimpleMajorityElection_call, simple_majority, cnt_drift, py_len. cbv zeta.
@@ -24,10 +45,8 @@ Proof.
   assert (H : forall l n, (min_approval_go a n l = DDrift /\ fst (py_for body l (n, tt)) = Some DDrift) \/
                           (min_approval_go a n l = DNone /\ fst (py_for body l (n, tt)) = None)).
   { induction l0 as [|d t IH]; intros n; [right; split; reflexivity|].
-    cbn [py_for min_approval_go]. unfold body at 1 3. rewrite dstate_eqb_drift.
-    destruct (is_drift d); cbv zeta.
-    - destruct (a <=? n + 1); [left; split; reflexivity|]. apply IH.
-    - destruct (a <=? n); [left; split; reflexivity|]. apply IH. }
+    cbn [py_for min_approval_go]. unfold body at 1 3. rewrite ?dstate_eqb_drift.
+    split_tests; zdec; first [left; split; reflexivity | apply IH | exfalso; lia]. }
   specialize (H l 0). destruct (py_for body l (0, tt)) as [r [n []]]. simpl in H.
   destruct H as [[H1 H2]|[H1 H2]]; rewrite H1; subst r; reflexivity.
 Qed.
@@ -39,11 +58,8 @@ Proof.
   assert (H : forall l na nc, (ordered_go a c na nc l = DDrift /\ fst (py_for body l (na, (nc, tt))) = Some DDrift) \/
                               (ordered_go a c na nc l = DNone /\ fst (py_for body l (na, (nc, tt))) = None)).
   { induction l0 as [|d t IH]; intros na nc; [right; split; reflexivity|].
-    cbn [py_for ordered_go]. unfold body at 1 3. rewrite dstate_eqb_drift.
-    destruct (is_drift d); cbv zeta; [|apply IH].
-    destruct (na <? a); cbv zeta.
-    - destruct ((a <=? na + 1) && (c <=? nc)); [left; split; reflexivity|]. apply IH.
-    - destruct ((a <=? na) && (c <=? nc + 1)); [left; split; reflexivity|]. apply IH. }
+    cbn [py_for ordered_go]. unfold body at 1 3. rewrite ?dstate_eqb_drift.
+    split_tests; zdec; first [left; split; reflexivity | apply IH | exfalso; lia]. }
   specialize (H l 0 0). destruct (py_for body l (0, (0, tt))) as [r [na [nc []]]]. simpl in H.
   destruct H as [[H1 H2]|[H1 H2]]; rewrite H1; subst r; reflexivity.
 Qed.
